@@ -41,6 +41,9 @@ def cases(tier, seed):
     if tier == "thorough":
         evsets += [[["offer", "b"], ["offer", "c"]], [["offer", "a"], ["stop", "a"], ["offer", "a"]], [["offer", "c"], ["stop", "c"]]]
     out = []
+    # offer, stop-offer, re-offer of the same service within the first offer's TTL (fixed
+    # TTLs 1 s / infinite): a timer left over from the withdrawn offer must not hit the new one
+    out.append({"h": "H13", "filters": ["f_exact", "f_none"], "rep": 2, "base": 40, "evs": [["offer", "a"], ["stop", "a"], ["offer", "a"]], "ttls": [1, 0, "inf"], "_w": 12})
     # two live offers (infinite TTL) match the wildcard filter, one goes away again
     out.append({"h": "H13", "filters": ["f_any"], "rep": 2, "base": 10, "evs": [["offer", "a"], ["offer", "b"], ["stop", "a"]], "inf": True, "_w": 12})
     out.append({"h": "H13", "filters": ["f_any", "f_maj"], "rep": 1, "base": 10, "evs": [["offer", "b"], ["offer", "a"], ["stop", "b"]], "inf": True, "_w": 12})
@@ -97,7 +100,10 @@ def h13(E, M, case):
         s = SERVICES[ev[1]]
         sess["P"] += 1
         if ev[0] == "offer":
-            if case.get("inf"):
+            if case.get("ttls"):
+                k_ev = [k for k, e in enumerate(evs) if e is ev][0]
+                ttl = TTL_FOREVER if case["ttls"][k_ev] == "inf" else case["ttls"][k_ev]
+            elif case.get("inf"):
                 ttl = TTL_FOREVER
             else:
                 ttl = E.int("ttl%d" % i, 1, 3) if not E.flag("forever%d" % i) else TTL_FOREVER
